@@ -297,6 +297,9 @@ func Build(v sb.V) interface{} {
 		a := &[1]stick.Value{}
 		a[0] = a
 		return a
+	case "embednil:deep":
+		// the nil pointer sits ten levels of embedding down
+		return Lv9{}
 	case "embednil:time":
 		// String, MarshalJSON, ... are promoted from the nil *time.Time
 		return NilEmbTime{Name: "launch"}
@@ -674,7 +677,7 @@ func OwnNum(v interface{}) (float64, bool) {
 // or one of the menagerie's structs that embed a nil pointer or interface.
 func isNilPtr(v interface{}) bool {
 	switch v.(type) {
-	case NilEmbStringer, NilEmbNumber, NilEmbBoolean, NilEmbIface, NilEmbSafe, NilEmbTime,
+	case NilEmbStringer, NilEmbNumber, NilEmbBoolean, NilEmbIface, NilEmbSafe, NilEmbTime, Lv9, *Lv9,
 		*NilEmbStringer, *NilEmbNumber, *NilEmbBoolean, *NilEmbIface, *NilEmbSafe, *NilEmbTime:
 		return true
 	}
@@ -747,3 +750,14 @@ type NilEmbTime struct {
 }
 
 var aliasRows = [][2]int{{1, 2}, {3, 4}}
+
+type Lv0 struct{ *OnlyStringer }
+type Lv1 struct{ Lv0 }
+type Lv2 struct{ Lv1 }
+type Lv3 struct{ Lv2 }
+type Lv4 struct{ Lv3 }
+type Lv5 struct{ Lv4 }
+type Lv6 struct{ Lv5 }
+type Lv7 struct{ Lv6 }
+type Lv8 struct{ Lv7 }
+type Lv9 struct{ Lv8 }
